@@ -58,6 +58,8 @@ pub struct ChainFacts {
   pub hops: usize,
   pub cyclic: bool,
   pub slot_on_source: bool,
+  /// a module (not an error) is stored under a redirect source of the chain
+  pub module_on_source: bool,
 }
 
 pub fn chain_facts(g: &ModuleGraph, slot_keys: &HashSet<ModuleSpecifier>, s: &ModuleSpecifier) -> ChainFacts {
@@ -67,7 +69,14 @@ pub fn chain_facts(g: &ModuleGraph, slot_keys: &HashSet<ModuleSpecifier>, s: &Mo
   seen.insert(cur.clone());
   while let Some(next) = g.redirects.get(&cur) {
     if slot_keys.contains(&cur) {
-      f.slot_on_source = true;
+      // the known defect (F12) is an *error* recorded on a member of a redirect chain; a module stored
+      // under a redirect source is something else
+      let is_error = g.verif_slots().into_iter().any(|(k, sl, _)| *k == cur && matches!(sl, Some(Err(_))));
+      if is_error {
+        f.slot_on_source = true;
+      } else {
+        f.module_on_source = true;
+      }
     }
     f.hops += 1;
     if !seen.insert(next.clone()) {
@@ -80,7 +89,9 @@ pub fn chain_facts(g: &ModuleGraph, slot_keys: &HashSet<ModuleSpecifier>, s: &Mo
 }
 
 fn classify(f: &ChainFacts) -> &'static str {
-  if f.slot_on_source {
+  if f.module_on_source {
+    "module-stored-under-redirect-source"
+  } else if f.slot_on_source {
     "slot-on-redirect-source"
   } else if f.cyclic {
     "redirect-cycle"
@@ -215,7 +226,9 @@ pub fn run_case(
       };
       let got = listed.get(src.as_str()).cloned();
       if got != expect {
-        let shape = if facts.slot_on_source {
+        let shape = if facts.module_on_source {
+          "module-stored-under-redirect-source"
+        } else if facts.slot_on_source {
           "slot-on-redirect-source"
         } else if facts.cyclic {
           "redirect-cycle"
@@ -465,6 +478,52 @@ pub fn run(tier: &str, seed: u64) -> Report {
     run_case(&mut report, &mut case, &mut reqs, &mut imps, &mut sets, &mut origin, id);
     report.count("built-worlds");
     report.nontrivial.insert(format!("world-chain{}-cycle{:?}-kind{:?}", wi % 14, cfg.cycle, w.kind));
+  }
+
+  // (c) built graphs whose redirect table was seeded from a lockfile before the build, with stale
+  // entries: a specifier the loader redirects to is itself listed as a redirect source although the
+  // loader serves it as a module
+  let seeded_worlds = if tier == "thorough" { 2000 } else { 250 };
+  for wi in 0..seeded_worlds {
+    let mut cfg = GenCfg::default();
+    cfg.chain = Some(1 + wi % 4);
+    let mut wr = rng.fork();
+    let w = gen_world(&mut wr, &cfg);
+    let is_plain_module = |i: usize| matches!(&w.resp[i], Resp::Module { final_spec, .. } if *final_spec == i);
+    let mut seeds: Vec<(String, String)> = vec![];
+    for r in &w.resp {
+      if let Resp::Redirect(t) = r {
+        if is_plain_module(*t) && wr.chance(1, 2) {
+          let cands: Vec<usize> = (0..w.specs.len()).filter(|u| *u != *t && is_plain_module(*u)).collect();
+          if !cands.is_empty() {
+            let u = cands[wr.below(cands.len())];
+            if !seeds.iter().any(|(a, _)| *a == w.specs[*t].to_string()) {
+              seeds.push((w.specs[*t].to_string(), w.specs[u].to_string()));
+            }
+          }
+        }
+      }
+    }
+    if seeds.is_empty() {
+      continue;
+    }
+    let mut graph = ModuleGraph::new(w.kind);
+    graph.fill_from_lockfile(deno_graph::FillFromLockfileOptions {
+      redirects: seeds.iter().map(|(a, b)| (a.as_str(), b.as_str())),
+      package_specifiers: std::iter::empty(),
+    });
+    let loader = ScriptedLoader::new(&w);
+    let roots = w.roots.iter().map(|r| w.specs[*r].clone()).collect::<Vec<_>>();
+    let Ok(g) = crate::build::try_build(&w, &loader, graph, roots) else {
+      report.count("skipped-build-failure:seeded");
+      continue;
+    };
+    let desc = json!({"source": "built-world-with-lockfile-redirects", "lockfile_redirects": seeds, "world": w.describe()});
+    let mut case = Case { in_scope: true, graph: g, ctx: Ctx::default(), desc: desc.clone(), universe: w.specs.clone() };
+    descs.push(desc);
+    let id = descs.len() - 1;
+    run_case(&mut report, &mut case, &mut reqs, &mut imps, &mut sets, &mut origin, id);
+    report.count("built-worlds-with-lockfile-redirects");
   }
 
   // correspondence: model vs implementation
